@@ -12,7 +12,7 @@ import gen
 from props.common import diff_run
 from props import blockvals as bv
 
-DRIVERS = ["kernels", "kernels_block"]
+DRIVERS = ["kernels", "kernels_block", "kernels_ecx"]
 ASSUMPTIONS = [
     "the builtin backend instantiated with the exact rational vq::Q executes the same template code as with double",
     "block_crs/Eigen/hybrid backends: compared against the scalar model only (see DESIGN.md)",
@@ -321,6 +321,24 @@ def block_run(ctx, blines):
                 fails.append(dict(kind="counterexample", case=of[cid], impl=impl1.get(cid), model=res.get(cid), op=of[cid].split(" ", 2)[1],
                                   oracle=dict(op="scalar-twin " + tl.split(" ", 2)[1], result=res.get(cid), line=tl[:2000]), size=len(of[cid]),
                                   theorem="C07 A4: block-valued primitive = scalar primitive on the expanded matrix / flattened vectors (scalar model, theorems C07_*_formula)"))
+    # the Eigen backend with a complex value type: the same "cx.*" lines (complex coefficients only) through
+    # harness/drv_kernels_ecx.cpp must give the same model outputs (inner_product conjugate-linear in the SECOND
+    # argument on every backend)
+    elines = [l for l in blines if l.split(" ", 2)[1] in ("cx.inner", "cx.copy", "cx.clear", "cx.residual", "cx.axpby",
+                                                          "cx.axpbypcz", "cx.vmul", "cx.spmv")]
+    if elines:
+        eimpl = ctx["run_driver"](ctx["cpp"]["kernels_ecx"], elines, env_extra={"OMP_NUM_THREADS": "1"})
+        emodel = ctx["run_driver"](ctx["model"], elines)
+        for l in elines:
+            cid, op, payload = l.split(" ", 2)
+            o = eimpl.get(cid)
+            if o == "SKIP": continue
+            ctx["stats"]["evaluations"] += 1; ctx["stats"]["by_op"]["eigen." + op] = ctx["stats"]["by_op"].get("eigen." + op, 0) + 1
+            if o is not None and not o.startswith(("EXC", "CRASH")): ctx["stats"]["nontrivial"] += 1
+            if o != emodel.get(cid):
+                ctx["stats"]["mismatches"] += 1
+                fails.append(dict(kind="counterexample", case=l, impl=o, model=emodel.get(cid), op=op, size=len(l),
+                                  theorem="correspondence drv_kernels_ecx (Eigen backend, complex values, %s) vs Kernels.v at ComplexS QcS (C07_complex_*)" % op))
     for l in blines:
         cid, op, payload = l.split(" ", 2)
         if op == "cx.inner" and impl1.get(cid) is not None:
